@@ -6,6 +6,8 @@ package main
 // process-global state, an interned message, a shared attribute slice).
 
 import (
+	"strconv"
+
 	openfgav1 "github.com/openfga/api/proto/openfga/v1"
 	"github.com/openfga/language/pkg/go/graph"
 	"gonum.org/v1/gonum/graph/encoding"
@@ -13,11 +15,21 @@ import (
 	"google.golang.org/protobuf/reflect/protoreflect"
 )
 
+// scribbleCount makes every scribble write a different value: an object the
+// library interned and handed out twice then changes AGAIN between a canonical
+// call made before this scribble and the call made after it.
+var scribbleCount int
+
+func scribbleText() string {
+	return "SCRIBBLED-" + strconv.Itoa(scribbleCount)
+}
+
 // scribbleProto overwrites every scalar it can reach in a message tree.
 func scribbleProto(m proto.Message) {
 	if m == nil {
 		return
 	}
+	scribbleCount++
 	seen := map[protoreflect.Message]bool{}
 	var walk func(msg protoreflect.Message, depth int)
 	walk = func(msg protoreflect.Message, depth int) {
@@ -41,13 +53,13 @@ func scribbleProto(m proto.Message) {
 					case protoreflect.MessageKind:
 						walk(l.Get(i).Message(), depth+1)
 					case protoreflect.StringKind:
-						l.Set(i, protoreflect.ValueOfString("SCRIBBLED"))
+						l.Set(i, protoreflect.ValueOfString(scribbleText()))
 					}
 				}
 			case fd.Kind() == protoreflect.MessageKind:
 				walk(v.Message(), depth+1)
 			case fd.Kind() == protoreflect.StringKind:
-				msg.Set(fd, protoreflect.ValueOfString("SCRIBBLED"))
+				msg.Set(fd, protoreflect.ValueOfString(scribbleText()))
 			}
 			return true
 		})
@@ -110,8 +122,9 @@ func scribbleWeighted(g *graph.WeightedAuthorizationModelGraph) {
 }
 
 func scribbleAttrs(a []encoding.Attribute) {
+	scribbleCount++
 	for i := range a {
-		a[i].Key, a[i].Value = "SCRIBBLED", "SCRIBBLED"
+		a[i].Key, a[i].Value = scribbleText(), scribbleText()
 	}
 }
 
